@@ -40,7 +40,8 @@ STOP = {'exprs', 'filter', 'id', 'ident', 'inc', 'dec', 'global_mutations',
         'mutations', 'Task', 'Result', 'max_depth', 'tests', 'success',
         'diff', 'runtime', 'i', 'w', 'r', 'assert-ident'}
 KID = {'sym': 'x', 'num': '1', 'bvb': '#b0101', 'bvx': '#x0F', 'str': '"s"',
-       'nil': '()', 'lsym': '(x)'}
+       'nil': '()', 'lsym': '(x)', 'lnil': '(())', 'llsym': '((x))',
+       'lmix': '((x Int) ())'}
 PRELUDE = ('(declare-const x Int)\n(declare-const y Int)\n'
            '(declare-const b (_ BitVec 4))\n(declare-const s String)\n')
 
@@ -92,6 +93,29 @@ ODD_TEXTS = [')', '(', '(assert (x)', '(a))', '(a)) (b)', '"unterminated',
              '|unterminated', 'a b c', '()', '', '(()', '())', ';only comment',
              '(assert true) )', '(declare-const x Int', ') (check-sat)',
              '(set-logic', '"s" (check-sat)', '(x)(y)(z))))']
+
+
+def expected_tasks(muts, exprs, params):
+    """(BFS index, task name) of every proposal, each mutator guarded on its
+    own (proposals yielded before a mutator raises count)."""
+    from ddsmt import nodes
+    want = []
+    count = 0
+    for node in nodes.bfs(exprs, params.get('max_depth', None)):
+        count += 1
+        for m in muts:
+            try:
+                if hasattr(m, 'filter') and not m.filter(node):
+                    continue
+                if hasattr(m, 'mutations'):
+                    for _ in m.mutations(node):
+                        want.append((count, str(m)))
+                if hasattr(m, 'global_mutations'):
+                    for _ in m.global_mutations(node, exprs):
+                        want.append((count, f'(global) {m}'))
+            except Exception:  # noqa: costs this mutator's candidates only
+                pass
+    return want
 
 
 def main_process_paths(shape, placement):
@@ -152,10 +176,22 @@ def main_process_paths(shape, placement):
             muts, params = sh.get_pass(hp, i)
             try:
                 prod = sh.Producer(muts, DummyFlag(), exprs)
-                for _ in prod.generate(0, params):
-                    pass
+                got = [(t.nodeid, t.name) for t in prod.generate(0, params)]
             except Exception as e:  # noqa
                 bad.append(('hierarchical Producer', type(e).__name__, str(e)))
+                continue
+            # a failure inside one mutator costs only that mutator's
+            # candidates: the tasks must be exactly what every mutator
+            # proposes when each one is guarded on its own
+            want = expected_tasks(muts, exprs, params)
+            if got != want:
+                lost = [x for x in want if x not in got]
+                extra = [x for x in got if x not in want]
+                bad.append(('hierarchical Producer loses candidates',
+                            'TaskListDiffers',
+                            f'pass {i}: {len(got)} tasks, expected '
+                            f'{len(want)}; missing e.g. {lost[:3]}, '
+                            f'unexpected e.g. {extra[:3]}'))
         for mode in ('default', 'pretty', 'wrap'):
             ns.pretty_print = (mode == 'pretty')
             ns.wrap_lines = (mode == 'wrap')
@@ -167,6 +203,20 @@ def main_process_paths(shape, placement):
         for k, v in saved.items():
             setattr(ns, k, v)
     return bad, text
+
+
+def edits_worker(chunk):
+    """Edited commands of GenEdits.tla (texts), each as a top-level command
+    after the prelude."""
+    import logging
+    import io
+    logging.disable(logging.CRITICAL)
+    sys.stderr = io.StringIO()
+    out = []
+    for cmd in chunk:
+        bad, text = main_process_paths(cmd, 'top')
+        out.append((cmd, text, bad))
+    return out
 
 
 def shapes_worker(chunk):
@@ -226,8 +276,11 @@ def main():
         '2/3 x child shapes) at top level and inside an assert, replayed '
         'through the unguarded main-process code paths; (b) every situation '
         'of Main.tla (fault x entry point x strategy) through the real CLI; '
-        '(c) sampled shapes end to end; non-trivial = shapes with at least '
-        'one child; distinct by (shape, placement)')
+        '(c) sampled shapes end to end; (d) every command of GenEdits.tla '
+        '(well-formed declaration / definition / binder forms with one or '
+        'two subtrees erased or replaced) through the same code paths; '
+        'non-trivial = shapes with at least one child; distinct by (shape, '
+        'placement)')
     rep.assumptions += [
         'special identifiers are collected from quoted strings of the sources',
         'exceptions raised inside one mutator are fine when ddSMT catches and '
@@ -281,6 +334,29 @@ def main():
                     f'{shape_text(head, kids)!r} ({placement})',
                     {'head': head, 'kids': [list(k) for k in kids],
                      'text': text})
+    # ---- model: edited commands (GenEdits.tla) ------------------------------
+    import semconform as SC
+    cmds = set()
+    if not a.replay:
+        ecfg = 'MC_GenEdits_q.cfg' if a.tier == 'quick' else 'MC_GenEdits_t.cfg'
+        for st in common.tlc_generate(rep, 'GenEdits', ecfg, timeout=1800):
+            cmds.add(SC.render(SC.dec(st['t'])))
+    elif rp.get('command'):
+        cmds.add(rp['command'])
+    cmds = sorted(cmds)
+    with multiprocessing.get_context('fork').Pool(12) as pool:
+        eres = pool.map(edits_worker, [cmds[i::48] for i in range(48)])
+    for ch in eres:
+        for cmd, text, bad in ch:
+            rep.count()
+            nshape += 1
+            rep.nontrivial(common.digest(['edit', cmd]))
+            for fn, exc, msg in bad:
+                rep.violation(
+                    f'{fn}:{exc}:command={cmd}',
+                    f'{fn} raises {exc}: {msg[:120]} on the command {cmd!r}',
+                    {'head': None, 'kids': [], 'command': cmd, 'text': text})
+    rep.cov['edited_commands'] = len(cmds)
     for t in ODD_TEXTS:
         rep.count()
         bad, text = main_process_paths(t, 'raw')
